@@ -107,6 +107,15 @@ def valid_inner(t):
     return True
 
 
+def fixed_item_arrays():
+    """Arrays / vectors whose items are fixed-size vectors or arrays of numbers (own code path in every backend)."""
+    out = []
+    for inner in (Vec(P("float32"), 3), Vec(P("int16"), 2), Arr(P("uint8"), [2, 2])):
+        for c in (Arr(inner, None), Arr(inner, 2), Arr(inner, [2]), Arr(inner, (("p", None), ("q", None))), Vec(inner), Vec(inner, 2)):
+            out.append(c)
+    return out
+
+
 def shapes(depth, tier="quick"):
     """Ordered list of distinct shapes with <= depth nested constructors (simplest first)."""
     L = leaves()
@@ -147,6 +156,9 @@ def shapes(depth, tier="quick"):
             for i, j in pairs:
                 if (i + j) % (3 if tier == "quick" else 1) == 0:
                     add(mk_union([cs[j], cs[i]], null=True))
+            # arrays whose items are fixed-size vectors / arrays of numbers (a depth-2 family with its own code path in every backend)
+            for c in fixed_item_arrays():
+                add(c)
             reps = kind_representatives()
             for tri in itertools.combinations(reps, 3):
                 add(mk_union(list(tri)))
@@ -194,12 +206,21 @@ def quarantine_class(t):
     def scalar(x):
         return (x[0] == "prim" and x[1] not in ("date", "time", "datetime")) or (x[0] == "named" and x[1] in SCALAR_NAMED)
 
+    def fixed_of_scalars(x):
+        """Fixed-length vector / fixed-shape array of numbers: stored as a numpy sub-array dtype, which works."""
+        if x[0] == "vec":
+            return x[2] is not None and scalar(x[1]) and x[1][0] == "prim" and x[1][1] != "string"
+        if x[0] == "arr":
+            d = x[2]
+            return isinstance(d, tuple) and all(l is not None for _, l in d) and scalar(x[1]) and x[1][0] == "prim" and x[1][1] != "string"
+        return False
+
     def has_bad_array(x):
         if x is None:
             return False
         k = x[0]
         if k == "arr":
-            return not scalar(x[1]) or has_bad_array(x[1])
+            return not (scalar(x[1]) or fixed_of_scalars(x[1])) or has_bad_array(x[1])
         if k in ("opt", "vec", "stream"):
             return has_bad_array(x[1])
         if k == "map":
